@@ -2,9 +2,11 @@
 
 usage: python -m harness.props.c20_child <mode>
   mode "alone":   the reference analysis only
-  mode "after":   an unrelated analysis of another dimensionality first (default options), then the reference analysis
+  mode "after":   unrelated work first - an analysis of another dimensionality (default options), a double-precision zuko fit that FAILS
+                  (non-finite training data), a double-precision flowjax proposal that is merely built - then the reference analysis
 The reference analysis: (a) a MiniPCNSMC run with DEFAULT kernel options and an explicit generator on a 3-d target, (b) a flow
-preconditioning transform (zuko back-end) built and trained with an explicit seed on fixed data.
+preconditioning transform (zuko back-end) built and trained with an explicit seed on fixed data, (c) a flowjax proposal of DEFAULT
+precision built with an explicit key and trained on fixed data (jax in the mode the process started in).
 """
 import hashlib
 import json
@@ -52,16 +54,60 @@ def precond_flow(seed):
     return digest(z, y, lj)
 
 
+def flowjax_run(key):
+    import jax
+
+    from aspire.flows import get_flow_wrapper
+
+    F, fxp = get_flow_wrapper("flowjax")
+    f = F(dims=2, device="cpu", key=jax.random.key(key))
+    data = np.random.default_rng(4).normal(0.1, 0.6, (64, 2)).astype(np.float32)
+    h = f.fit(data, max_epochs=2)
+    x, lq = f.sample_and_log_prob(8)
+    return digest(np.asarray(x), np.asarray(lq), np.asarray(h.training_loss, dtype=float))
+
+
+def unrelated_failures():
+    """work that ends badly or goes nowhere, and must leave no trace in the process"""
+    import jax
+    import torch
+
+    from aspire.flows import get_flow_wrapper
+
+    torch.set_num_threads(1)
+    Z, _ = get_flow_wrapper("zuko")
+    z = Z(dims=2, device="cpu", dtype="float64", seed=1)
+    bad = np.random.default_rng(0).normal(size=(40, 2))
+    bad[3, 1] = np.nan
+    try:
+        z.fit(bad, n_epochs=1)
+    except (ValueError, RuntimeError):
+        pass
+    try:
+        J, _ = get_flow_wrapper("flowjax")
+        J(dims=2, device="cpu", dtype="float64", key=jax.random.key(0))
+    except Exception:   # noqa: BLE001 - whether such a flow can be built in 32-bit mode is not the subject
+        pass
+
+
 def main():
     mode = sys.argv[1]
     out = {}
     if mode == "after":
         smc_run(2, 99)          # somebody else's analysis, earlier in the same process
+        try:
+            unrelated_failures()
+        except Exception as e:   # noqa
+            out["unrelated_work"] = "ERROR " + repr(e)[:200]
     out["smc_default_options"] = smc_run(3, 5)
     try:
         out["preconditioning_flow"] = precond_flow(7)
     except Exception as e:   # noqa
         out["preconditioning_flow"] = "ERROR " + repr(e)[:200]
+    try:
+        out["flowjax_default_precision"] = flowjax_run(11)
+    except Exception as e:   # noqa
+        out["flowjax_default_precision"] = "ERROR " + repr(e)[:200]
     print(json.dumps(out))
 
 
